@@ -258,5 +258,5 @@ func runC07(r *Runner, tier string, rng *Rng) {
 		}
 	}
 	flush()
-	r.St.Rule = "real certificates minted with crypto/x509: 11 chain shapes (direct, intermediates in the layout / from the caller / mixed two-level / missing, expired and not-yet-valid leaf, foreign root, expired intermediate, non-CA issuer, second layout root) x attribute lists (absent, one, several, duplicated) x 0-3 constraints per step in the forms wildcard, empty, nil, [\"\"], exact, subset, superset, permuted, duplicated, unrelated; compared: each constraint's verdict, the step verdict, and VerifyCertificateTrust against the ground truth of how the chain was built. Class = (chain shape, constraint forms, verdicts)."
+	r.St.Rule = "real certificates minted with crypto/x509: 13 chain shapes (direct, intermediates in the layout / from the caller / mixed two-level / missing, a foreign intermediate or the foreign root itself supplied by the caller, expired and not-yet-valid leaf, foreign root, expired intermediate, non-CA issuer, second layout root) x attribute lists (absent, one, several, duplicated) x 0-3 constraints per step in the forms wildcard, empty, nil, [\"\"], exact, subset, superset, permuted, duplicated, unrelated; compared: each constraint's verdict, the step verdict, and VerifyCertificateTrust against the ground truth of how the chain was built. Class = (chain shape, constraint forms, verdicts)."
 }
